@@ -80,6 +80,13 @@ impl Context {
         }
     }
 
+    /// Leaves every procedure that is still active: only the module's state remains.
+    pub fn pop_to_module(&mut self) {
+        while self.states.len() > 1 {
+            self.do_pop();
+        }
+    }
+
     pub fn push_error_handler_context(&mut self) {
         self.drop_argument_states();
         self.do_push_existing(0, false);
